@@ -1,11 +1,11 @@
 SPECIFICATION Spec
 CONSTANTS
-  YEARS = {1999, 2000, 2096, 2100, 2399, 2400}
+  YEARS = {1700, 1999, 2000, 2096, 2100, 2399, 2400, 3999}
   DAYS = {1, 28, 29, 30, 31}
   KM <- KM_t
   KYR <- KYR_t
   KD <- KD_t
-  MAXOPS = 3
+  MAXOPS = 2
   EAGER = FALSE
 INVARIANTS Valid Compose DayExact KeepDay Emit
 CHECK_DEADLOCK FALSE
